@@ -106,6 +106,15 @@ Theorem C18_scmp : forall n w a b, length a = n -> length b = n -> wf a -> wf b 
   cmpZ (sval w (limbs_val a) ?= sval w (limbs_val b))%Z.
 Proof. exact wide_scmp_spec. Qed.
 
+(* operands of different value widths aw, bw (buffers of na, nb limbs): each is sign extended from
+   its own width; limbs at or above the width are never looked at (the value is taken mod 2^w) *)
+Theorem C18_scmp_asym : forall na nb aw bw a b,
+  wf a -> wf b -> 0 < N.of_nat na < 8192 -> 0 < N.of_nat nb < 8192 -> 0 < aw < 65536 -> 0 < bw < 65536 ->
+  aw <= 64 * N.of_nat (Nat.max na nb) -> bw <= 64 * N.of_nat (Nat.max na nb) ->
+  wide_scmp_asym a b (pack_nb_width (8 * N.of_nat na) aw) (pack_nb_width (8 * N.of_nat nb) bw) =
+  cmpZ (sval aw (limbs_val a mod 2 ^ aw) ?= sval bw (limbs_val b mod 2 ^ bw))%Z.
+Proof. exact wide_scmp_asym_spec. Qed.
+
 (* ---------------------------------------------------------------- masks *)
 Theorem C18_apply_mask : forall n w dst, length dst = n -> wf dst ->
   0 < N.of_nat n < 8192 -> 0 < w < 65536 ->
@@ -210,6 +219,10 @@ Example C18_scmp_example :
   wide_scmp [1; 0; 2] [5; 0; 0] (pack_nb_width 24 130) = (-1)%Z /\
   wide_ucmp 3 [1; 0; 2] [5; 0; 0] = 1%Z.
 Proof. split; reflexivity. Qed.
+Example C18_scmp_asym_example :
+  (* -1 as a 3-bit value against 5 as a 70-bit value *)
+  wide_scmp_asym [7; 0] [5; 0] (pack_nb_width 16 3) (pack_nb_width 16 70) = (-1)%Z.
+Proof. reflexivity. Qed.
 Example C18_resize_example :
   (* 65-bit value with the sign bit set, sign extended into 3 limbs / zero extended *)
   wide_resize [7; 1] (pack_nb_width 16 65 + 4294967296) 24 = [7; MAXW; MAXW] /\
@@ -241,6 +254,7 @@ Print Assumptions C18_ne.
 Print Assumptions C18_is_nonzero.
 Print Assumptions C18_ucmp.
 Print Assumptions C18_scmp.
+Print Assumptions C18_scmp_asym.
 Print Assumptions C18_apply_mask.
 Print Assumptions C18_fill_ones.
 Print Assumptions C18_add_is_1800.
